@@ -1573,7 +1573,15 @@ class Kconfig(object):
                                 self.report.add_record(DefaultValuesArea, sym_or_choice=sym, promptless=True)
                 # If value is supposed to be a default and symbol has a prompt, save it for later
                 elif any(node.prompt is not None for node in sym.nodes):
-                    sym.present_in_current_sdkconfig = True
+                    if sym.choice:
+                        # Whether this entry selects the choice is decided by the value in the
+                        # file. The property setter would look at the current value of the symbol,
+                        # which is not final yet (user-set choice symbols are applied later).
+                        sym._present_in_current_sdkconfig = True
+                        if val == "y":
+                            sym.choice.present_in_current_sdkconfig = True
+                    else:
+                        sym.present_in_current_sdkconfig = True
                     if is_main_sdkconfig:
                         sym._sdkconfig_value = val
                         sym._loaded_as_default = True
